@@ -612,7 +612,7 @@ def resampleStepwise(xin, yin, xout, avg=True):
     # loop through xout / the xout bins
     yout = []
     for i in range(1, len(bins)):
-        start = bins[i - 1]
+        start = max(bins[i - 1], 1)  # a bin starting below xin[0] is covered from xin[0] on
         end = bins[i]
         # a copy: a slice of a numpy array is a view, trimming it would change the caller's values
         chunk = list(yin[start - 1 : end])
@@ -620,7 +620,7 @@ def resampleStepwise(xin, yin, xout, avg=True):
         length = [length[j] - length[j - 1] for j in range(1, len(length))]
 
         # if the xout lies outside the xin range
-        if not len(chunk):
+        if not len(chunk) or xout[i] <= xin[0]:
             yout.append(0)
             continue
 
